@@ -45,11 +45,24 @@ def c10_runs(tier):
     return [("main", ["--mode", "c10", "--mtu", str(m), "--wifi", "0", "--a", str(a)]) for m in mt for a in (0, 1, 2)]
 
 
+def c13_runs(tier):
+    if tier == "thorough":
+        return [("main", ["--part", str(i), "--nparts", "16"]) for i in range(16)]
+    return [("main", [])]
+
+
 EMIT = {"main": {"sources": MC + ["checks/emit.c"], "modes": ["c06", "c10"]}}
 OBS = {"main": {"sources": MC + ["checks/obs.c"], "modes": ["c07", "c19"]}}
 PROTO = {"main": {"sources": MC + ["checks/proto.c"], "modes": ["c02", "c03", "c09"]}}
 
 PROPS = {
+    "C13": {
+        "engine": "sweep",
+        "builds": {"main": {"sources": MC + ["checks/c13.c"]}}, "runs": c13_runs, "level": "exploration",
+        "technique": "exhaustive input enumeration of band_update_stats / band_choose_hello_time against a 128-bit reference (all 2^32 values of r in the thorough tier)",
+        "rule": "one evaluation = one call of the real function with (r, begun, prior Ni) or (Ni); distinct_nontrivial counts distinct resulting (Ni | required interval) values observed",
+        "assumptions": ["quick tier covers r in [0,2^20), [2^32-2^16,2^32), all 2^k+-2 and the points where 45*r^2 crosses 2^k; thorough covers every r"],
+    },
     "C06": {
         "builds": EMIT, "runs": c06_runs, "level": "model_checking",
         "technique": "explicit-state BFS to fixpoint over session states; in every reachable state with a definite mapper an exhaustive Emit family (all descriptor tuples n<=2, n=3 and every n up to the frame capacity in one representative state per mapper class, over-declared counts) is executed and the ordered port-call log compared with the descriptor list",
